@@ -152,7 +152,7 @@ def check_in_message(v, ec_keys, dt, x):
     comp, sub = st_chains(v)
     out = []
     try:
-        def build(val):
+        def build(val, cls=cls):
             m = Message('ADT_A01', version=v, validation_level=2, encoding_chars=dict(ec))
             m.msh.msh_7 = '20200101'
             m.msh.msh_10 = cls(val)
@@ -163,6 +163,13 @@ def check_in_message(v, ec_keys, dt, x):
                 setattr(getattr(getattr(m.pid, sub[0]), sub[1]), sub[2], cls(val))
             return m.to_er7()
         a, b = build(x), build('v')
+        # the class of the same name that is not version specific (what `from hl7apy.base_datatypes import ST` gives):
+        # an element of this version must encode its value like the version's own class does
+        from hl7apy import base_datatypes as generic
+        g = build(x, generic.ST)
+        if g != a:
+            out.append(('escape:generic-datatype-object-encoded-differently', 'value %r in a %s message: %r with hl7apy.base_datatypes.ST, %r with the '
+                        'version\'s ST' % (x, v, g, a)))
         ecx = R.full(ec)
         if R.counts(a, ecx) != R.counts(b, ecx):
             out.append(('escape:separator-count-changed', 'value %r: counts %r vs %r\n%r' % (
